@@ -121,7 +121,7 @@ def entries_for(rng, f, n, explicit=4):
     if f in W.RAW_FAMILIES:
         if not n:
             return []
-        kind, start = rng.randint(0, (W.FS_KINDS if f in W.FS_FAMILIES else 5) - 1), rng.randint(0, 50000)
+        kind, start = rng.randint(0, (W.FS_KINDS if f in W.FS_FAMILIES else 10 if f == W.LS else 5) - 1), rng.randint(0, 50000)
         # these entries are spelled out in the Coq case: keep the literal below ~25 kB
         size = max(1, len(W.raw_nlri(f, kind, start)))
         return [['rawbulk', f, kind, max(1, min(n, 25000 // size)), start]]
@@ -702,6 +702,16 @@ def struct_audit_cases(rng):
     for d, c in ((0, 0), (4294967295, 4294967295), (1, 100)):
         both(W.IPV4_SRP, [[0, ['srp', d, c, [192, 0, 2, 1]]]], 'srp_forms')
         both(W.IPV6_SRP, [[0, ['srp', d, c, V6A]]], 'srp_forms')
+    # BGP-LS (still opaque in the model: framing proved, inner octets differential): every NLRI type with every
+    # descriptor TLV, TLV value lengths 0 / 1 / 255 / 256, prefix lengths at the octet boundaries
+    for kind in range(5, 10):
+        for i in range(0, 42):
+            l, r = caps_pair([W.LS, W.IPV4])
+            es = [['rawbulk', W.LS, kind, 1, i]]
+            add(l, r, ['reach', W.LS, NH4, A0, es], 'ls_every_nlri_type')
+            add(l, r, ['unreach', W.LS, es], 'ls_every_nlri_type')
+        l, r = caps_pair([W.LS, W.IPV4], lmode=3, rmode=3, ext=(False, False))
+        add(l, r, ['reach', W.LS, NH6, A0, [['rawbulk', W.LS, kind, 60, 100]]], 'ls_every_nlri_type')
     # MUP: every route type x address family, prefix length / TEID length edges, optional source address
     for f in (W.IPV4_MUP, W.IPV6_MUP):
         for k in range(1, 5):
